@@ -16,7 +16,7 @@ import (
 var reroute = map[string]bool{
 	"Write": true, "Read": true, "Recvfrom": true, "Sendto": true, "Sendfile": true,
 	"Close": true, "Dup": true, "EpollCtl": true, "EpollWait": true, "Syscall": true,
-	"Connect": true,
+	"Connect": true, "GetsockoptInt": true,
 }
 
 func main() {
